@@ -43,7 +43,7 @@ TOL = 1e-6
 ASSUMPTIONS = base.ASSUMPTIONS
 
 
-def gen_cases(tier, seed):
+def _gen_cases_main(tier, seed):
     for c in base.sweep(tier, seed + 17, base.SCHEMES):
         yield c
 
@@ -94,7 +94,7 @@ def judge(value, truths):
     return None
 
 
-def check_case(case):
+def _check_case_main(case):
     from bounded import adapt as A, algs
     from corankco.consensus import Consensus, ConsensusFeature
     rankings, scheme = case["rankings"], case["scheme"]
@@ -191,3 +191,16 @@ def check_case(case):
                                                                           "problem": bad[1]}})
     key = "%s|%s" % (rankings, scheme) if reported else None
     return {"fails": fails, "key": key, "nkeys": max(reported - 1, 0), "evals": evals, "sample": case}
+
+
+def gen_cases(tier, seed):
+    from bounded import history
+    yield from _gen_cases_main(tier, seed)
+    yield from history.history_cases(ID, tier, seed)
+
+
+def check_case(case):
+    if case.get("kind") == "history":
+        from bounded import history
+        return history.check_history(case)
+    return _check_case_main(case)
